@@ -47,6 +47,31 @@ def main():
             return Predicated(pred, ps)
         raise ValueError(t)
 
+    def rename_tree(t, rn):
+        "Renaming at the level of the input tree (independent of how the built items compare or hash)."
+        k = t[0]
+        if k == 'A':
+            j = rn['atoms'].get(f'{t[1] % ATOM_W},{t[1] // ATOM_W}')
+            return ['A', j[1] * ATOM_W + j[0]] if j else t
+        if k in ('U', 'M'):
+            return [k, t[1], rename_tree(t[2], rn)]
+        if k == 'B':
+            return [k, t[1], rename_tree(t[2], rn), rename_tree(t[3], rn)]
+        if k == 'Q':
+            j = rn['vars'].get(f'{t[2] % VAR_W},{t[2] // VAR_W}')
+            return [k, t[1], (j[1] * VAR_W + j[0]) if j else t[2], rename_tree(t[3], rn)]
+        if k == 'P':
+            ps = []
+            for q in t[3]:
+                j = rn['consts' if q[0] == 'c' else 'vars'].get(f'{q[1]},{q[2]}')
+                ps.append([q[0], j[0], j[1]] if j else q)
+            if t[1] >= 0:
+                j = rn['preds'].get(f'{t[1]},{t[2]},{len(ps)}')
+                if j:
+                    return ['P', j[0], j[1], ps]
+            return ['P', t[1], t[2], ps]
+        raise ValueError(t)
+
     def rename(s, rn):
         tn = type(s).__name__
         if tn == 'Atomic':
@@ -111,9 +136,13 @@ def main():
                 arg = Argument(job['argstr'])
                 prems, concl = list(arg.premises), arg.conclusion
             else:
-                prems = [build(p) for p in job['premises']]
-                concl = build(job['conclusion'])
-            if job.get('rename'):
+                pt, ct = job['premises'], job['conclusion']
+                if job.get('rename'):
+                    pt = [rename_tree(p, job['rename']) for p in pt]
+                    ct = rename_tree(ct, job['rename'])
+                prems = [build(p) for p in pt]
+                concl = build(ct)
+            if job.get('rename') and 'premises' not in job:
                 prems = [rename(p, job['rename']) for p in prems]
                 concl = rename(concl, job['rename'])
             if job.get('extra') is not None:
